@@ -1,8 +1,18 @@
 """C18 chain returns the burnt-in, thinned kernel iterates and diagnostics (DESIGN §4-C18)."""
-from . import infer
+from . import infer, c19
 
 EXPLANATION = ("The symbolic summary of chain(kernel).run_chain is decomposed: scan body emits and carries the post-kernel trace, one index "
                "term arange(burn_in, n_steps, thinning) subscripts every trace leaf and the accepts collected by the same state-wrapped run, "
-               "diagnostics are functions of the retained accepts, the multi-chain path maps replicas over a leading axis.")
-RULES = [infer.chain_rule]
+               "diagnostics are functions of the retained accepts, the multi-chain path maps replicas over a leading axis; the state interpreter's "
+               "collection of saved values across scan iterations (the source of accepts) is checked with the finite-model rules of C19.")
+
+
+def state_collection(ctx):
+    """chain obtains `accepts` from the dictionary collected by the state interpreter across the scan over kernel steps: the interpreter's
+    dispatch (scan arm selected by the primitive alone, values saved in the body stacked along the iteration axis, transparent results) is
+    part of the mechanism the property is anchored in (state.py:280-320), so its rules are run for C18 as well."""
+    c19.interpreter_rules(ctx)
+
+
+RULES = [infer.chain_rule, state_collection]
 FLOOR = 1
